@@ -27,6 +27,8 @@ DECIDED = [
     "LAYER-1 every reader call into the model layer (create with parsed arguments, append, setters) is inside try/except Exception -> self.error",
     "LAYER-2 parsed children are attached one by one (a refusal costs one child, not the rest of the list)",
     "ERR-1 error() raises ParserException unless ignore_errors, then it only warns; warn() cannot raise; _handle_version raises only the two parser exceptions",
+    "ROOT-2 the version gate lets a root element pass only if its tag is exactly the name the element dispatch knows for a Document (so the dispatch of the root cannot come back empty)",
+    "REGEX-1 no regular expression applied to document text has an unbounded repeat around an unbounded repeat that may be followed by nothing (exponential backtracking: the reader would not return)",
     "LIB-1 ET.XML / ET.parse are wrapped: XMLSyntaxError -> ParserException",
     "TOT-1 parse_cardinality (both) is total on every order type of input (no raise, normal form or None)",
     "LOOP-1 no parsed state leaks from one sibling element to the next",
@@ -38,6 +40,198 @@ MODEL_MODULES = ("odml.base", "odml.section", "odml.property", "odml.doc", "odml
 ALLOWED = ("ParserException", "InvalidVersionException")
 READER_FUNCS = ("tools.xmlparser.XMLReader.parse_tag", "tools.dict_parser.DictReader.to_odml",
                 "tools.dict_parser.DictReader.parse_sections", "tools.dict_parser.DictReader.parse_properties")
+
+
+PARSER_OPTIONS = {
+    "huge_tree": (lambda v: isinstance(v, ast.Constant) and v.value is True,
+                  "lifts libxml2's depth limit: documents nested deeper than the interpreter's recursion limit make the recursive reader "
+                  "raise RecursionError instead of ParserException", "a well formed odML file with 600 nested <section> elements"),
+    "recover": (lambda v: not (isinstance(v, ast.Constant) and v.value is False),
+                "makes lxml repair malformed input silently: text that is not well-formed XML yields a partial Document instead of a "
+                "ParserException (and the loaders cache a truncated terminology instead of None)", "an XML file cut off in the middle"),
+    "encoding": (lambda v: not (isinstance(v, ast.Constant) and v.value is None),
+                 "overrides the encoding declared in the XML prolog / byte order mark: valid files in another declared encoding are "
+                 "refused or decoded wrongly", "a Latin-1 or UTF-16 encoded odML file written by another tool"),
+}
+
+
+RE_FUNCS = ("re.compile", "re.match", "re.search", "re.fullmatch", "re.findall", "re.finditer", "re.sub", "re.subn", "re.split")
+
+
+def exponential_regex(pattern):
+    """reason (text) why the pattern can backtrack exponentially, or None.  Rule: an unbounded repeat whose body - groups unwrapped -
+    consists of an unbounded repeat plus items that can all match the empty string: the text matched by the inner repeat can then be
+    split between iterations of the outer one in exponentially many ways, and a non matching tail makes the engine try them all."""
+    try:
+        import re._parser as sp          # python >= 3.11
+    except ImportError:                  # pragma: no cover
+        import sre_parse as sp
+    try:
+        tree = sp.parse(pattern)
+    except Exception:
+        return None
+    UNB = sp.MAXREPEAT
+
+    def unwrap(seq):
+        items = list(seq)
+        while len(items) == 1 and str(items[0][0]) == "SUBPATTERN":
+            items = list(items[0][1][3])
+        return items
+
+    def nullable(it):
+        op, av = str(it[0]), it[1]
+        if op in ("MAX_REPEAT", "MIN_REPEAT", "POSSESSIVE_REPEAT"):
+            return av[0] == 0 or all(nullable(x) for x in av[2])
+        if op == "SUBPATTERN":
+            return all(nullable(x) for x in av[3])
+        if op == "BRANCH":
+            return any(all(nullable(x) for x in alt) for alt in av[1])
+        return op in ("AT", "ASSERT", "ASSERT_NOT")
+
+    def unbounded_inner(it):
+        op, av = str(it[0]), it[1]
+        if op in ("MAX_REPEAT", "MIN_REPEAT"):
+            return av[1] == UNB
+        if op == "SUBPATTERN":
+            inner = unwrap(av[3])
+            return len(inner) >= 1 and any(unbounded_inner(x) for x in inner) and all(unbounded_inner(x) or nullable(x) for x in inner)
+        return False
+
+    def walk(seq):
+        for it in seq:
+            op, av = str(it[0]), it[1]
+            if op in ("MAX_REPEAT", "MIN_REPEAT"):
+                lo, hi, body = av
+                items = unwrap(body)
+                if hi == UNB and len(items) >= 1 and any(unbounded_inner(x) for x in items) \
+                        and all(unbounded_inner(x) or nullable(x) for x in items):
+                    return "an unbounded repeat encloses an unbounded repeat that can be followed by the empty string"
+                r = walk(body)
+                if r:
+                    return r
+            elif op == "SUBPATTERN":
+                r = walk(av[3])
+                if r:
+                    return r
+            elif op == "BRANCH":
+                for alt in av[1]:
+                    r = walk(alt)
+                    if r:
+                        return r
+            elif op in ("ASSERT", "ASSERT_NOT"):
+                r = walk(av[1])
+                if r:
+                    return r
+        return None
+    return walk(tree)
+
+
+def regex_rule(prog, rep, rule="REGEX-1"):
+    """every regular expression the model layer applies to document text (Property constructors run the dtype checks while a file is read)"""
+    from ..model import canonical_name
+    from ..fold import Folder
+    rep.rule(rule, "for every call of %s in odml/ outside odml.rdf: the pattern - a literal, a folded constant, or (when it is computed) "
+                   "every string literal of the enclosing function that parses as a regular expression - passes the nested-repeat test "
+                   "of exponential_regex()" % (RE_FUNCS,))
+    fd = Folder(prog)
+    n = 0
+    scanned = set()
+    for f in prog.all_functions():
+        if f.module.name.startswith("odml.rdf") or f.module.name.startswith("odml.scripts"):
+            continue
+        calls = [c for c in calls_in(f.node) if canonical_name(prog, f, c.func) in RE_FUNCS and c.args]
+        if not calls:
+            continue
+        pats = []
+        computed = False
+        for c in calls:
+            try:
+                v = fd.try_fold(c.args[0], f.module, default=None)
+            except Exception:
+                v = None
+            if isinstance(v, str):
+                pats.append((v, c))
+            else:
+                computed = True
+        if computed and f.module.name not in scanned:
+            # the pattern comes out of a table or a parameter: every string literal of the module that is written like a regular
+            # expression (doc strings excluded) is a candidate
+            scanned.add(f.module.name)
+            docs = set()
+            for y in ast.walk(f.module.tree):
+                if isinstance(y, (ast.FunctionDef, ast.ClassDef, ast.Module)) and y.body and isinstance(y.body[0], ast.Expr) \
+                        and isinstance(y.body[0].value, ast.Constant):
+                    docs.add(id(y.body[0].value))
+            for y in ast.walk(f.module.tree):
+                if isinstance(y, ast.Constant) and isinstance(y.value, str) and id(y) not in docs and len(y.value) < 400 \
+                        and any(ch in y.value for ch in "+*{") and any(ch in y.value for ch in "\\^$[("):
+                    pats.append((y.value, y))
+        for pat, at in pats:
+            n += 1
+            why = exponential_regex(pat)
+            rep.check(why is None, rule, "%s: pattern %r" % (f.short, pat[:40]), "no nested unbounded repeat",
+                      "the pattern %r is applied to document text and %s: a long non matching value keeps the reader busy for hours"
+                      % (pat[:60], why), where(f, at), witness="a text value of 40 digits followed by a letter")
+    rep.floor(rule, n, 4, "regular expressions applied to document text")
+    # the rule recognises its target shape (a vacuous lint passes forever)
+    if exponential_regex(r"^(-+)?(\d+,?)+\.\d+$") is None or exponential_regex(r"^(a+)+$") is None or exponential_regex(r"^(-+)?\d+\.\d+$") is not None:
+        raise AnalysisError("exponential_regex() no longer recognises the reference patterns")
+
+
+def root_gate_rule(prog, rep, rule="ROOT-2"):
+    """XMLReader._handle_version: on every normal exit `<root>.tag == <Document format name>` is known, as an exact comparison of the
+    unmodified tag with the constant that XMLReader.tags / parse_element dispatch on (a more tolerant gate lets a root through that
+    parse_element cannot dispatch: it returns None and from_file(path) fails with AttributeError)."""
+    from ..fold import format_tables
+    rep.rule(rule, "_handle_version returns normally only on paths that know <root>.tag == %r (the name of format.Document), compared as it is"
+             % format_tables(prog)["Document"]["_name"])
+    want = format_tables(prog)["Document"]["_name"]
+    hv = prog.func("tools.xmlparser.XMLReader._handle_version")
+    rep.saw_function(hv)
+    g = build_cfg(hv)
+    root = hv.params[1] if hv.has_self else hv.params[0]
+    from ..fold import Folder
+    fd = Folder(prog)
+
+    def clf(lf):
+        if isinstance(lf, ast.Compare) and len(lf.ops) == 1 and isinstance(lf.ops[0], ast.Eq):
+            sides = [lf.left, lf.comparators[0]]
+            tags = [x0 for x0 in sides if unparse(x0) == "%s.tag" % root]
+            consts = [x0 for x0 in sides if x0 not in tags]
+            if len(tags) == 1 and len(consts) == 1:
+                try:
+                    v = fd.try_fold(consts[0], hv.module, default=None)
+                except Exception:
+                    v = None
+                if v == want:
+                    return "ROOT"
+        return None
+    exits = [p for k0, p in g.exit.pred if k0 != "exc" and p.kind != "raise"]
+    ok = bool(exits) and all(known(g, p, clf, lambda a: a["ROOT"], ["ROOT"]) for p in exits)
+    rep.check(ok, rule, "_handle_version admits exactly the root tag %r" % want, "known on every normal exit",
+              "_handle_version can return normally for a root whose tag is not exactly %r: parse_element has no entry for it, returns None in "
+              "lenient mode, and from_file(path) then raises AttributeError on None" % want, hv.where,
+              witness="<odml version=\"1.1\"> read with ignore_errors=True: AttributeError / None instead of ParserException")
+
+
+def xml_parser_options(prog, rep, rule, names):
+    """the lxml XMLParser of the reader is built without options that change which inputs are accepted (shared by C01, C16, C18)"""
+    n = 0
+    for f0 in prog.all_functions():
+        if f0.module.name != "odml.tools.xmlparser":
+            continue
+        for c in calls_in(f0.node):
+            if call_name(c).split(".")[-1] == "XMLParser":
+                n += 1
+                star = [k for k in c.keywords if k.arg is None]
+                rep.check(not star, rule, "%s: parser options are spelled out" % f0.short, "no **options", "XMLParser(**...) hides the options", where(f0, c))
+                for name in names:
+                    test, why, wit = PARSER_OPTIONS[name]
+                    bad = [k for k in c.keywords if k.arg == name and test(k.value)]
+                    rep.check(not bad, rule, "%s: XMLParser without %s" % (f0.short, name), "ok",
+                              "%s builds the parser with %s=%s, which %s" % (f0.short, name, unparse(bad[0].value) if bad else "", why), where(f0, c),
+                              witness=wit)
+    rep.floor(rule, n, 1, "XMLParser constructions in tools.xmlparser")
 
 
 def run(prog, rep):
@@ -168,18 +362,15 @@ def run(prog, rep):
         rep.check(ok, "LIB-1", "%s wraps %s" % (f.short, fn), "XMLSyntaxError -> ParserException", "%s does not convert lxml syntax errors into ParserException" % f.short, f.where,
                   witness="malformed XML leaks lxml.etree.XMLSyntaxError")
 
-    # the recursive descent of parse_element is bounded by libxml2's own depth limit (256): options that lift it are refused
-    WIDENING = {"huge_tree": True}
-    for f0 in prog.all_functions():
-        if f0.module.name != "odml.tools.xmlparser":
-            continue
-        for c in calls_in(f0.node):
-            if call_name(c).endswith("XMLParser"):
-                wid = [k.arg for k in c.keywords if k.arg in WIDENING and isinstance(k.value, ast.Constant) and k.value.value == WIDENING[k.arg]]
-                rep.check(not wid, "LIB-1", "%s: the XML parser keeps libxml2's depth limit" % f0.short, "no widening option",
-                          "%s builds the parser with %s: documents nested deeper than the interpreter's recursion limit make the recursive "
-                          "reader raise RecursionError instead of ParserException" % (f0.short, wid), where(f0, c),
-                          witness="a well formed odML file with 600 nested <section> elements")
+    # the recursive descent of parse_element is bounded by libxml2's own depth limit (256): options that lift it are refused;
+    # `recover` would turn malformed text into a partial document instead of a ParserException
+    xml_parser_options(prog, rep, "LIB-1", ("huge_tree", "recover"))
+
+    # --------------------------------------------------------------- REGEX-1
+    regex_rule(prog, rep, "REGEX-1")
+
+    # ---------------------------------------------------------------- ROOT-2
+    root_gate_rule(prog, rep, "ROOT-2")
 
     # ----------------------------------------------------------------- TOT-1 / LOOP-1
     cardinality_roundtrip(prog, rep, which=("xml", "dict"))
